@@ -43,13 +43,32 @@ def program(draw, n_values: int):
     s = draw(CS.can_schema(cfg))
     for e in s.enums:
         e.items = [(f"{e.name}x{k}", v) for k, (_n, v) in enumerate(e.items)]
-    buses = draw(st.lists(st.from_regex(r"[a-z][a-z0-9]{0,3}", fullmatch=True), min_size=1, max_size=3, unique=True))
-    for im in s.impls:
+    buses = draw(st.lists(st.from_regex(r"[a-z][a-z0-9]{0,3}", fullmatch=True)
+                          | st.from_regex(r"[A-Za-z][A-Za-z0-9_]{0,3}", fullmatch=True), min_size=1, max_size=3, unique=True))
+    if draw(st.integers(0, 2)) == 0:
+        # bus names that differ only in letter case are different buses
+        b0 = buses[0]
+        for v in (b0.upper(), b0.capitalize(), b0.lower(), b0.swapcase()):
+            if v not in buses and len(buses) < 4:
+                buses.append(v)
+    same_id = draw(st.integers(0, 3)) == 0
+    for n, im in enumerate(s.impls):
         im.fields = [(k, v) for k, v in im.fields if k == "id"]
         if draw(st.integers(0, 5)) != 0:
             im.fields.append(("bus", draw(st.sampled_from(buses))))
         im.signals = []
         im.order = None
+    if same_id and len(buses) >= 2:
+        # one frame id used on two different buses: (id, bus) is the key, not the id alone
+        bound = [im for im in s.impls if im.get("bus") is not None]
+        for a in bound:
+            for b in bound:
+                if a is not b and M.plain_value(a.get("bus")) != M.plain_value(b.get("bus")):
+                    b.fields = [(k, (a.get("id") if k == "id" else v)) for k, v in b.fields]
+                    break
+            else:
+                continue
+            break
     vals = {im.type: draw(st.lists(S.struct_value(s, im.type, cppstrat.VCFG), min_size=2, max_size=n_values))
             for im in s.impls}
     used = {(M.plain_value(im.get("id")), M.plain_value(im.get("bus"))) for im in s.impls}
@@ -147,6 +166,11 @@ def check_program(s: M.Schema, vals: Any, strangers: Any, rec: Any = None, text:
                     cl.append("ge2_bindings")
                 if len(bus) < 4:
                     cl.append("short_bus")
+                others = [M.plain_value(o.get("bus")) for o in bound if o is not im]
+                if any(o != bus and o.lower() == bus.lower() for o in others):
+                    cl.append("bus_case_twin")
+                if any(M.plain_value(o.get("id")) == M.plain_value(im.get("id")) for o in bound if o is not im):
+                    cl.append("id_on_two_buses")
                 from vlib import reflayout
 
                 if reflayout.wire_width(s, M.StructRef(im.type)) % 8:
